@@ -62,7 +62,7 @@ func stopAll() {
 var pool = []string{"k", "K", "shared"}
 
 func genCase(t *rapid.T) Case {
-	c := Case{Databases: rapid.SampledFrom([]int{1, 2, 16}).Draw(t, "databases"), Conns: rapid.IntRange(2, 5).Draw(t, "conns"), Pipe: rapid.IntRange(0, 2).Draw(t, "pipe") == 0}
+	c := Case{Databases: rapid.SampledFrom([]int{1, 2, 16, 16, 300}).Draw(t, "databases"), Conns: rapid.IntRange(2, 5).Draw(t, "conns"), Pipe: rapid.IntRange(0, 2).Draw(t, "pipe") == 0}
 	n := rapid.SampledFrom([]int{4, 10, 25, 50}).Draw(t, "len")
 	N := c.Databases
 	conn := 0
@@ -89,6 +89,10 @@ func genCase(t *rapid.T) Case {
 			switch rapid.IntRange(0, 5).Draw(t, "selkind") {
 			case 0, 1, 2:
 				arg = strconv.Itoa(rapid.IntRange(0, N-1).Draw(t, "db"))
+				if N > 256 && rapid.Bool().Draw(t, "high") {
+					// indexes that do not fit a byte, and pairs that agree modulo 256
+					arg = strconv.Itoa(rapid.SampledFrom([]int{255, 256, 257, 1, 0, 299, 43, 299 - 256}).Draw(t, "hi"))
+				}
 			case 3:
 				arg = gen.Pick(t, "edge", strconv.Itoa(N), strconv.Itoa(N+1), "-1", "2147483648", "9223372036854775808")
 			default:
